@@ -1,7 +1,8 @@
 From Coq Require Import List NArith ZArith Bool Permutation.
 Import ListNotations.
 Require Import MV.Common.Interleave MV.C10.Model MV.C10.Spec MV.C10.Exec
-               MV.C10.ProofsConc MV.C10.ProofsConc2 MV.C10.ProofsSeq MV.C10.ExecProofs.
+               MV.C10.ProofsConc MV.C10.ProofsConc2 MV.C10.ProofsSeq MV.C10.ExecProofs
+               MV.C10.ProofsBound MV.C10.ProofsRefine MV.C10.ProofsWire MV.C10.ProofsSound.
 Open Scope N_scope.
 Require Import MV.C10.Properties.
 
@@ -81,3 +82,49 @@ Print Assumptions C10_refuted_before_fix.
 Check (C10_examples_ok : spec_ok example_seq (run_case example_seq) = true /\ known_class example_seq = None /\
   spec_ok example_sched (run_case example_sched) = true /\ known_class example_sched = None).
 Print Assumptions C10_examples_ok.
+Check (C10_delta_bounded : forall fx f ps sched,
+  Forall (Forall noabs_op) ps -> one_flusher f ps ->
+  let c := fst (exec (step fx) site (init_config ps) sched) in
+  (forall d, In d (sent (fst c) ++ rawd (fst c) ++ lost (fst c)) -> exists w, In (d, w) (flog (fst c))) /\
+  (forall d w, In (d, w) (flog (fst c)) -> d = w mod two64) /\
+  (exists done_marks, (done_marks = marks (fst c) \/ done_marks = tl (marks (fst c))) /\
+                      map snd (flog (fst c)) = diffs done_marks /\ desc (added (fst c) :: marks (fst c))) /\
+  fold_right N.add 0 (map snd (flog (fst c))) <= added (fst c)).
+Print Assumptions C10_delta_bounded.
+Check (C10_counter_clause_on_model : forall es, Forall cev_wf es ->
+  counter_ok es (map (option_map fst) (crun all_fixed cst0 es)) = true).
+Print Assumptions C10_counter_clause_on_model.
+Check (C10_histogram_clause_on_model : forall samp rsv es,
+  (samp = true -> hwin_ok rsv 0 es = true) ->
+  histogram_ok samp rsv es (map (fun bl => sort_z (concat bl)) (hrun samp hst0 es)) = true).
+Print Assumptions C10_histogram_clause_on_model.
+Check (C10_spec_ok_sound_seq : forall c fl, spec_ok (CSeq c) (OSeq fl) = true ->
+  o_max c < two32 /\ flushes_ok c (nows (o_ops c)) fl = true /\
+  forall k, In k (keyids c) ->
+    counter_ok (flat_map (projC k) (o_ops c)) (obs_counter k fl) = true /\
+    gauge_ok (flat_map (projG k) (o_ops c)) (obs_gauge k fl) = true /\
+    histogram_ok (o_samp c) (o_rsv c) (flat_map (projH k) (o_ops c)) (obs_hist k fl) = true).
+Print Assumptions C10_spec_ok_sound_seq.
+Check (C10_flushes_ok_sound : forall c ns fl, flushes_ok c ns fl = true ->
+  length fl = length ns /\
+  forall i n f, nth_error ns i = Some n -> nth_error fl i = Some f ->
+    exists ms ps cp gp hp, f = FOut ms ps cp gp hp /\
+      msgs_wf (N.of_nat (length (o_keys c))) ms = true /\
+      (forall m, In m ms -> ts_ok (o_aggr c) n m = true) /\
+      (forall p, In p ps -> frame_ok (o_lp c) (o_max c) p = true)).
+Print Assumptions C10_flushes_ok_sound.
+Check (C10_spec_ok_sound_sched : forall ps sched tr rs fd fu fz fg,
+  spec_ok (CSched ps sched) (OSched tr rs true (fd, fu, fz, fg)) = true -> has_uabs ps = false ->
+  (sumN (fd :: deltas_of rs)) mod two64 = (inc_sum ps) mod two64).
+Print Assumptions C10_spec_ok_sound_sched.
+Check (C10_wire_chain : forall c, o_max c < 4294967296 ->
+  exists fl, run_seq all_fixed c = Some fl /\
+    Forall2 (fun xs f => exists fs cp gp hp,
+               f = FOut (msgs_of c xs) (map (MV.C09.Inv.frame (o_lp c)) fs) cp gp hp /\
+               bodies_rel c xs fs /\ Forall (fun b => W.len b <= o_max c) fs)
+            (all_calls all_fixed c) fl).
+Print Assumptions C10_wire_chain.
+Check (C10_wire_stream_decodes : forall fs,
+  Forall (fun b => W.len b < 4294967296) fs ->
+  split_frames (length fs) (concat (map (MV.C09.Inv.frame true) fs)) = fs).
+Print Assumptions C10_wire_stream_decodes.
